@@ -22,7 +22,10 @@ class C07(scen.WorldProp):
                 "Wheatley.C07.silent_when_stopped",
                 "Wheatley.C07.only_look_to_starts",
                 "Wheatley.C07.setting_keeps_stand",
-                "Wheatley.startNextRow_ctl"]
+                "Wheatley.startNextRow_ctl",
+                "Wheatley.C07.cli_stop_at_rounds"]
+    # the command line: what of the built configuration this property is about
+    cli_fields = ['sar']
     level_text = ("theorems: That's all gives at most one more method row then rounds; Rounds returns to the opening "
                   "row from the next row; Stand / stop-at-rounds stop ringing only at a row boundary whose next row is "
                   "a handstroke; only Look To can start ringing again (all for arbitrary states). correspondence: "
